@@ -343,7 +343,7 @@ pub fn run(args: &Args) -> Report {
     for a in &hs {
         for b in &hs {
             let (a2, b2) = (a.clone(), b.clone());
-            cases.push(Case { label: format!("A:[{}] B:[{}]", op_str(a), op_str(b)), exec: Box::new(move |r| exec(&a2, &b2, r)) });
+            cases.push(Case { try_unbounded: false, max_k: u32::MAX, label: format!("A:[{}] B:[{}]", op_str(a), op_str(b)), exec: Box::new(move |r| exec(&a2, &b2, r)) });
         }
     }
     rep.bounds.insert("history_length_per_end".into(), serde_json::json!(len));
